@@ -717,7 +717,7 @@ func redisConcMerge(c *Ctx, s *cmdSched, kind string) {
 // tried to add, and is at least the sum of those calls that reported success.
 
 type faultHook struct {
-	mu    sync.Mutex
+	mu     sync.Mutex
 	armed  bool
 	lost   bool // true: execute, then lose the reply; false: refuse before execution
 	sticky bool // true: every command fails until disarmed (an outage), false: the next one only
